@@ -6,6 +6,7 @@ import json
 import operator
 import os
 import pickle
+import random
 
 from vp import asm, gen
 from vp.core import h
@@ -31,7 +32,7 @@ CONFIG = dict(
     min_nontrivial={"quick": 300, "thorough": 5000},
     nshards={"quick": 8, "thorough": 16},
     timeout={"quick": 600, "thorough": 3600},
-    required_counters=("failing_inputs_checked", "rewritten_file_faces", "files_checked", "cli_runs", "json_documents", "loader_threshold_checks", "order_table_cells"),
+    required_counters=("threaded_face_rounds", "threaded_yields_injected", "worker_thread_faces", "failing_inputs_checked", "rewritten_file_faces", "files_checked", "cli_runs", "json_documents", "loader_threshold_checks", "order_table_cells"),
 )
 
 RANKS = ["LIKELY_SAFE", "POSSIBLY_UNSAFE", "SUSPICIOUS", "LIKELY_UNSAFE", "LIKELY_OVERTLY_MALICIOUS",
@@ -480,8 +481,75 @@ def setup():
     return f, analysis, loader, cli, fickling, UnsafeFileError
 
 
+THREAD_INPUTS = [("benign-list", pickle.dumps([1, 2, 3], 2)), ("benign-dict", pickle.dumps({"a": (1, "b")}, 4)),
+                 ("suspicious", b"ccollections\nOrderedDict\n(tR0N."), ("unsafe-sink", b"cvp_sink\nhit\n(K\x01tR."),
+                 ("lom-getpid", b"cos\ngetpid\n(tR."), ("om-eval", b"c__builtin__\neval\n(S'1+1'\ntR."),
+                 ("unsafe-import-only", b"cvp_sink\nhit\n0N."), ("benign-text", pickle.dumps("text" * 9, 0))]
+
+
+def threaded_faces(ctx, mods):
+    """The faces asked by several threads at once, each about its own file: every answer is the one the same
+    question gets single-threaded (verdict, findings document, is_likely_safe, what the checked loader does)."""
+    from vp import threads
+    f, analysis, loader, cli, fickling, U = mods
+    agg = ctx.agg
+    paths = []
+    for i, (lab, d) in enumerate(THREAD_INPUTS):
+        pth = os.path.join(ctx.scratch, f"c10_thr_{i}.pkl")
+        with open(pth, "wb") as fh:
+            fh.write(d)
+        paths.append(pth)
+
+    def faces(i):
+        d, pth = THREAD_INPUTS[i][1], paths[i]
+        out = []
+        r = analysis.check_safety(f.Pickled.load(d))
+        out.append(("severity", r.severity.name))
+        out.append(("document", json.dumps(r.to_dict(), sort_keys=True, default=str)))
+        out.append(("is_likely_safe", fickling.is_likely_safe(pth)))
+        try:
+            loader.load(io.BytesIO(d))
+            out.append(("loader", "accepted"))
+        except U as e:
+            out.append(("loader", "refused:" + str(e.info.get("severity"))))
+        return out
+    try:
+        want = [faces(i) for i in range(len(THREAD_INPUTS))]
+        for i in range(len(THREAD_INPUTS)):
+            kind, got = threads.in_worker(faces, i)
+            agg.count("worker_thread_faces")
+            if kind != "ok" or got != want[i]:
+                diff = got if kind != "ok" else next((a, b) for a, b in zip(want[i], got) if a != b)
+                agg.violation("face:worker-thread-differs", f"{THREAD_INPUTS[i][0]}: main thread / worker thread: {diff!r}"[:300],
+                              {"label": THREAD_INPUTS[i][0], "threaded": "worker", "hex": THREAD_INPUTS[i][1].hex()})
+        for r in range({"quick": 2, "thorough": 20}[ctx.tier]):
+            rng = random.Random(ctx.seed * 7919 + ctx.shard * 101 + r)
+            idx = rng.sample(range(len(THREAD_INPUTS)), 5)
+            res, st = threads.race([(lambda i=i: [faces(i) for _ in range(3)]) for i in idx], seed=rng.randrange(1 << 30))
+            agg.count("threaded_face_rounds")
+            agg.count("threaded_yields_injected", st["yields_injected"])
+            for i, (kind, got) in zip(idx, res):
+                agg.case(h(repr(("thr", i, r, ctx.shard, ctx.seed)).encode()), True, {"threaded": True})
+                w = {"label": THREAD_INPUTS[i][0], "threaded": "race", "hex": THREAD_INPUTS[i][1].hex(),
+                     "others": [THREAD_INPUTS[j][0] for j in idx]}
+                if kind != "ok":
+                    agg.violation("face:threaded-differs", f"{THREAD_INPUTS[i][0]}: thread ended with {kind} {got!r}"[:300], w)
+                    continue
+                for g in got:
+                    if g != want[i]:
+                        a, b = next((a, b) for a, b in zip(want[i], g) if a != b)
+                        agg.violation(f"face:threaded-differs:{a[0]}",
+                                      f"{THREAD_INPUTS[i][0]}: {str(a[1])[:90]} single-threaded, {str(b[1])[:90]} while other threads check other files", w)
+                        break
+    finally:
+        for pth in paths:
+            if os.path.exists(pth):
+                os.remove(pth)
+
+
 def run_shard(ctx):
     mods = setup()
+    threaded_faces(ctx, mods)
     if ctx.shard == 0:
         order_table(ctx, mods[1])
     for label, parts, opts in stacks(ctx):
@@ -497,6 +565,9 @@ def run_shard(ctx):
 def replay(ctx, payload):
     mods = setup()
     c = payload["case"]
+    if c.get("threaded"):
+        threaded_faces(ctx, mods)
+        return
     if "parts_hex" not in c:
         order_table(ctx, mods[1])
         return
